@@ -146,6 +146,23 @@ SyntaxVisitor::Action TypeCanonicalizer::visitDeclarator_COMMON(const Declarator
         }
     }
 
+    return Action::Visit;
+}
+
+SyntaxVisitor::Action TypeCanonicalizer::visitParameterDeclaration(
+        const ParameterDeclarationSyntax* node)
+{
+    VISIT(node->specifiers());
+    VISIT(node->declarator());
+
+    // The type of a parameter is shared with the function type; a parameter
+    // without a name isn't reached through a declarator.
+    auto parmDecl = semaModel_->parameterFor(node);
+    if (parmDecl) {
+        auto canonTy = canonicalize(parmDecl->type(), parmDecl->enclosingScope());
+        const_cast<ParameterDeclarationSymbol*>(parmDecl)->setType(canonTy);
+    }
+
     return Action::Skip;
 }
 
